@@ -35,13 +35,161 @@ def fiber_at(root, path):
     return f
 
 
+def tree_points(tree, prefix=()):
+    """all stored leaf points (explicit defaults included) and the paths of stored empty fibers"""
+    pts, empties = [], []
+    for c, p in tree["e"]:
+        if p["k"] == "F":
+            if not p["e"]:
+                empties.append(prefix + (c,))
+            a, b = tree_points(p, prefix + (c,))
+            pts += a
+            empties += b
+        else:
+            pts.append((prefix + (c,), p["v"]))
+    return pts, empties
+
+
+def is_canonical(tree):
+    for c, p in tree["e"]:
+        if p["k"] == "F":
+            if not p["e"] or not is_canonical(p):
+                return False
+        elif p["v"] == 0:
+            return False
+    return True
+
+
+def to_nest(tree, depth, n):
+    if depth == 1:
+        out = [0] * n
+        for c, p in tree["e"]:
+            out[c] = p["v"]
+        return out
+    out = [to_nest({"k": "F", "e": []}, depth - 1, n) for _ in range(n)]
+    for c, p in tree["e"]:
+        out[c] = to_nest(p, depth - 1, n)
+    return out
+
+
+def build_tensor_ctor(init, depth, ctor, workdir=None):
+    """every constructor produces a tensor whose tree equals `init` (or returns None if the constructor cannot
+    express it, e.g. fromUncompressed for a tree holding explicit defaults)"""
+    import copy
+    ids = RANK_IDS[:depth]
+    if ctor == "fromFiber":
+        return proj.build_tensor(init, ids)
+    if ctor == "deepcopy":
+        return copy.deepcopy(proj.build_tensor(init, ids))
+    if ctor == "empty":
+        t = Tensor(rank_ids=ids)
+        pts, empties = tree_points(init)
+        for pt, v in pts:
+            r = t.getPayloadRef(*pt)
+            r <<= v
+        for pt in empties:
+            t.getPayloadRef(*pt)
+        return t
+    if ctor == "fromUncompressed":
+        if not is_canonical(init) or not init["e"]:
+            return None
+        return Tensor.fromUncompressed(ids, to_nest(init, depth, 4))
+    if ctor == "yaml":
+        import os, tempfile
+        t0 = proj.build_tensor(init, ids)
+        workdir = workdir or os.path.join(os.path.dirname(os.path.dirname(os.path.abspath(__file__))), ".work", "yaml")
+        os.makedirs(workdir, exist_ok=True)
+        fd, path = tempfile.mkstemp(suffix=".yaml", dir=workdir)
+        os.close(fd)
+        try:
+            t0.dump(path)
+            t = Tensor.fromYAMLfile(path)
+        finally:
+            os.unlink(path)
+        return t
+    if ctor == "swizzle":
+        if depth < 2 or not is_canonical(init):
+            return None
+        t0 = proj.build_tensor(init, ids)
+        return t0.swizzleRanks(list(reversed(ids))).swizzleRanks(ids)
+    if ctor == "setRoot":
+        t = Tensor(rank_ids=ids)
+        t.setRoot(proj.build_fiber(init))
+        return t
+    raise ValueError(ctor)
+
+
 def build(beh):
     depth = beh["depth"]
     if beh["emb"] == "tensor":
-        t = proj.build_tensor(beh["init"], RANK_IDS[:depth])
+        t = build_tensor_ctor(beh["init"], depth, beh.get("ctor", "fromFiber"))
         return t, t.getRoot()
     f = proj.build_fiber(beh["init"])
     return f, f
+
+
+def observe(obj, root, kind, beh):
+    """read-only operations; their results are discarded here (C10/C12/C07 judge them), only side effects matter"""
+    import copy, io, contextlib
+    other = build(beh)[0]
+    oroot = other.getRoot() if beh["emb"] == "tensor" else other
+    if kind == "eq":
+        _ = (obj == other)
+        _ = (obj != other)
+    elif kind in ("or", "xor", "and", "sub"):
+        def walk(a, b, d):
+            it = {"or": lambda: a | b, "xor": lambda: a ^ b, "and": lambda: a & b, "sub": lambda: a - b}[kind]()
+            for c, ps in it:
+                ps = tuple(ps) if isinstance(ps, tuple) else (ps,)
+                fs = [p for p in ps if isinstance(p, Fiber)]
+                if len(fs) >= 2 and d < 3:
+                    walk(fs[-2], fs[-1], d + 1)
+        walk(root, oroot, 0)
+        # also against a differently-shaped operand so that both sides are absent somewhere
+        walk(root, type(root)([7], [oroot.payloads[0]]) if (oroot.payloads and isinstance(oroot.payloads[0], Fiber)) else Fiber([7], [1]), 0)
+    elif kind == "print":
+        _ = str(obj), repr(obj), f"{obj}"
+        with contextlib.redirect_stdout(io.StringIO()):
+            obj.print()
+    elif kind == "count":
+        _ = obj.countValues()
+        _ = root.isEmpty(), root.nonEmpty(), len(root)
+    elif kind == "getabsent":
+        d = beh["depth"]
+        for pt in ([9] * d, [0] + [9] * (d - 1), [9], [0]):
+            try:
+                obj.getPayload(*pt[:d])
+            except AssertionError:
+                pass
+    elif kind == "iter":
+        for _ in root:
+            pass
+        for _ in root.iterOccupancy():
+            pass
+        for _ in root.iterRangeShape(0, 3):
+            pass
+        for _ in Fiber.coiterRangeShape([root, oroot], 0, 3):
+            pass
+    elif kind == "shape":
+        _ = obj.getShape(), obj.getDepth(), obj.getRankIds()
+        if beh["emb"] == "tensor":
+            _ = obj.getShape(authoritative=True)
+    elif kind == "dump":
+        _ = root.fiber2dict()
+    elif kind == "uncompress":
+        try:
+            root.uncompress()
+        except IndexError:
+            pass
+    elif kind == "reroot":
+        # build another tensor from this tensor's (owned) root: the source must stay intact
+        if beh["emb"] == "tensor":
+            _ = Tensor.fromFiber(rank_ids=obj.getRankIds(), fiber=root)
+            t2 = Tensor(rank_ids=obj.getRankIds())
+            t2.setRoot(root)
+    elif kind == "copy":
+        _ = copy.deepcopy(obj)
+        _ = root.copy()
 
 
 def project(obj, emb):
@@ -50,7 +198,7 @@ def project(obj, emb):
     return {"rank0": 0, "root": proj.proj_fiber(obj), "ranks": []}
 
 
-def do_action(obj, root, a, emb):
+def do_action(obj, root, a, emb, beh=None):
     op = a["op"]
     if op == "ref":
         obj.getPayloadRef(*a["pt"])
@@ -64,6 +212,8 @@ def do_action(obj, root, a, emb):
             r *= a["v"]
     elif op == "get":
         obj.getPayload(*a["pt"])
+    elif op == "obs":
+        observe(obj, root, a["kind"], beh)
     else:
         f = fiber_at(root, a["path"])
         if op == "append":
@@ -103,11 +253,12 @@ def execute(beh):
     """beh: {tid, init, depth, emb, steps:[action...]} -> log record for StoreTrace"""
     obj, root = build(beh)
     emb = beh["emb"]
-    out = {"tid": beh["tid"], "init": beh["init"], "depth": beh["depth"], "emb": emb, "steps": []}
+    out = {"tid": beh["tid"], "init": beh["init"], "depth": beh["depth"], "emb": emb, "ctor": beh.get("ctor", "fromFiber"),
+           "init0": project(obj, emb), "steps": []}
     for a in beh["steps"]:
         exc = "ok"
         try:
-            do_action(obj, root, a, emb)
+            do_action(obj, root, a, emb, beh)
         except BaseException as ex:  # noqa: B036 - parsers call sys.exit
             exc = classify_exc(ex)
         if emb == "tensor":
